@@ -187,6 +187,18 @@ func genC10(r *Rng, e *Emitter, n int) {
 			c = mk(win(ulps(cx, r.Intn(7)-3)), win(ulps(cy, r.Intn(7)-3)))
 			e.tally("mode=near-collinear")
 		}
+		if scale == 3 && r.chance(1, 2) {
+			// three points on (nearly) one line through the origin at widely different distances from it
+			// — 1e31 against 1e-42 — so that one ordinate difference needs hundreds of bits; each is the
+			// rounded multiple of one direction, moved by a few ulps
+			ux, uy := (0.1+r.Float64())*float64(1-2*r.Intn(2)), (0.1+r.Float64())*float64(1-2*r.Intn(2))
+			pt := func() geom.Coord {
+				m := (1 + r.Float64()) * math.Pow(10, float64(r.Intn(140)-70)) * float64(1-2*r.Intn(2))
+				return mk(ulps(m*ux, r.Intn(5)-2), ulps(m*uy, r.Intn(5)-2))
+			}
+			a, b, c = pt(), pt(), pt()
+			e.tally("mode=mixed-magnitude-ray")
+		}
 		e.tally(fmt.Sprintf("scale=%d", scale))
 		// all six argument orders (antisymmetry and cyclic invariance follow from exactness)
 		perms := [][3]geom.Coord{{a, b, c}, {b, c, a}, {c, a, b}, {b, a, c}, {a, c, b}, {c, b, a}}
